@@ -15,6 +15,8 @@ open Irismod Irismod.Sdk Irismod.Htlc Irismod.Spec.C03 Irismod.Spec.C04 Irismod.
 #print axioms unknown_claim_rejected
 #print axioms second_claim_rejected
 #print axioms duplicate_id_rejected
+#print axioms right_secret_accepted_plain
+#print axioms right_secret_accepted_outgoing
 #print axioms claim_exact
 #print axioms create_exact
 #print axioms refund_exact
